@@ -5,4 +5,7 @@ EXTENDS Calls
 InputsDef == {<<1, 1>>, <<2>>}
 ThreadsDef == {1, 2, 3}
 GarbageDef == {0, 7}
+\* the memo designs: two inputs with the same first element and different results, two threads
+InputsMemoDef == {<<1, 1>>, <<1>>}
+ThreadsMemoDef == {1, 2}
 =============================================================================
